@@ -247,6 +247,151 @@ theorem filter_sub_size (a : At) :
     sizeList ((a.kids.filter (fun k => k.t.hasChildren)).map (·.t)) ≤ sizeList a.t.kids := by
   rw [at_opKids]; exact opKids_size_le _
 
+/-! ### Function calls -/
+
+/-- Outcome of evaluating an argument list. -/
+def ArgsOutcome (r : Except ArithErr (List Rat)) (d : List Desc)
+    (res : Except EvalErr (List Numeric) × List Desc) : Prop :=
+  match r with
+  | .ok vs => res = (.ok (vs.map plain), d)
+  | .error _ => ∃ k s e, res = (.error (.err k s e), d)
+
+theorem denoteList_cons_ok {e : NExpr} {es : List NExpr} {v : Rat} {vs : List Rat}
+    (h1 : denote e = .ok v) (h2 : denoteList es = .ok vs) :
+    denoteList (e :: es) = .ok (v :: vs) := by
+  simp only [denoteList, h1, h2]
+
+theorem denoteList_cons_errL {e : NExpr} {es : List NExpr} {x : ArithErr}
+    (h1 : denote e = .error x) : ∃ y, denoteList (e :: es) = .error y := by
+  simp only [denoteList, h1]; exact ⟨_, rfl⟩
+
+theorem denoteList_cons_errR {e : NExpr} {es : List NExpr} {x : ArithErr}
+    (h2 : denoteList es = .error x) : ∃ y, denoteList (e :: es) = .error y := by
+  simp only [denoteList, h2]
+  cases denote e with
+  | ok v => exact ⟨_, rfl⟩
+  | error z => exact ⟨_, rfl⟩
+
+theorem denoteList_ok_cons {e : NExpr} {es : List NExpr} {ws : List Rat}
+    (h : denoteList (e :: es) = .ok ws) :
+    ∃ v vs, ws = v :: vs ∧ denote e = .ok v ∧ denoteList es = .ok vs := by
+  simp only [denoteList] at h
+  split at h
+  · rename_i v vs h1 h2
+    exact ⟨v, vs, by cases h; rfl, h1, h2⟩
+  · cases h
+  · cases h
+
+theorem denoteList_ok_two {args : List NExpr} {x n : Rat} (h : denoteList args = .ok [x, n]) :
+    ∃ a b, args = [a, b] ∧ denote b = .ok n := by
+  match args, h with
+  | [], h => simp [denoteList] at h
+  | [a], h =>
+    obtain ⟨v, vs, h1, _, h3⟩ := denoteList_ok_cons h
+    simp only [List.cons.injEq] at h1
+    rw [← h1.2] at h3
+    simp [denoteList] at h3
+  | [a, b], h =>
+    obtain ⟨v, vs, h1, _, h3⟩ := denoteList_ok_cons h
+    simp only [List.cons.injEq] at h1
+    obtain ⟨v', vs', h1', h2', _⟩ := denoteList_ok_cons h3
+    rw [← h1.2] at h1'
+    simp only [List.cons.injEq] at h1'
+    exact ⟨a, b, rfl, h1'.1 ▸ h2'⟩
+  | a :: b :: c :: r, h =>
+    obtain ⟨v, vs, h1, _, h3⟩ := denoteList_ok_cons h
+    simp only [List.cons.injEq] at h1
+    obtain ⟨v', vs', h1', _, h3'⟩ := denoteList_ok_cons h3
+    rw [← h1.2] at h1'
+    simp only [List.cons.injEq] at h1'
+    obtain ⟨v'', vs'', h1'', _, _⟩ := denoteList_ok_cons h3'
+    rw [← h1'.2] at h1''
+    cases h1''
+
+/-- The builtin a function name dispatches to. -/
+def callEval (cfg : Cfg) (f : Fn) (s e : Nat) (args : List Numeric) : EvalM Numeric :=
+  match f with
+  | .round => builtinRound cfg s e args
+  | .floor => builtinFloor s e args
+  | .ceil => builtinCeil s e args
+
+theorem call_outcome (cfg : Cfg) (f : Fn) (s e : Nat) (vs : List Rat) (d : List Desc)
+    (hr : f = .round → ∀ x n, vs = [x, n] →
+      isInt n = true ∧ -2147483648 ≤ n.num ∧ n.num ≤ 2147483647) :
+    Outcome (applyFn f vs) d (callEval cfg f s e (vs.map plain) d) := by
+  cases f with
+  | floor =>
+    match vs with
+    | [] => exact ⟨_, _, _, Props.C10.C10_arity_floor s e [] (by simp) d⟩
+    | [x] => exact Props.C10.C10_builtin_floor s e (plain x) d
+    | x :: y :: r => exact ⟨_, _, _, Props.C10.C10_arity_floor s e _ (by simp) d⟩
+  | ceil =>
+    match vs with
+    | [] => exact ⟨_, _, _, Props.C10.C10_arity_ceil s e [] (by simp) d⟩
+    | [x] => exact Props.C10.C10_builtin_ceil s e (plain x) d
+    | x :: y :: r => exact ⟨_, _, _, Props.C10.C10_arity_ceil s e _ (by simp) d⟩
+  | round =>
+    match vs, hr with
+    | [], _ => exact ⟨_, _, _, Props.C10.C10_arity_round cfg s e [] (by simp) d⟩
+    | [x], _ => exact Props.C10.C10_builtin_round1 cfg s e (plain x) d
+    | [x, n], hr =>
+      obtain ⟨hi, hlo, hhi⟩ := hr rfl x n rfl
+      have hden : n.den = 1 := by simpa [isInt] using hi
+      have hn : ((n.num : Int) : Rat) = n := Rat.coe_int_num_of_den_eq_one hden
+      have := Props.C10.C10_builtin_round2 cfg s e (plain x) n.num [] ⟨hlo, hhi⟩ d
+      rw [hn] at this
+      simp only [applyFn, hi, ↓reduceIte, Outcome]
+      exact this
+    | x :: y :: z :: r, _ =>
+      exact ⟨_, _, _, Props.C10.C10_arity_round cfg s e (List.map plain (x :: y :: z :: r))
+        (by simp) d⟩
+
+theorem args_ok (cfg : Cfg) (N : Nat) (ih : ∀ f, f ≤ N → EvalOK cfg f)
+    {ts : List Tree} {es : List NExpr} (h : ArgsR Represents ts es) :
+    ∀ (rest : List At) (F : Nat) (d : List Desc), rest.map (·.t) = ts → F ≤ N + 1 →
+      2 * sizeList ts + 1 ≤ F → LitsOKList es → RoundOKList es →
+      ArgsOutcome (denoteList es) d (evalArgs cfg F rest d) := by
+  induction h with
+  | nil =>
+    intro rest F d hr _ _ _ _
+    have : rest = [] := by simpa using hr
+    subst this
+    simp [ArgsOutcome, denoteList, evalArgs, pure]
+  | @cons x e xs es hx _ iha =>
+    intro rest F d hr hF hsz hl hro
+    obtain ⟨a, rest', rfl, hax, hrest'⟩ := map_eq_cons hr
+    simp only [sizeList] at hsz
+    have px := size_pos x
+    obtain ⟨F', rfl⟩ : ∃ F', F = F' + 1 := ⟨F - 1, by omega⟩
+    simp only [LitsOKList, RoundOKList] at hl hro
+    have h1 := ih F' (by omega) x e a.off d (by omega) hx hl.1 hro.1
+    rw [← hax, at_eta] at h1
+    have h2 := iha rest' F' d hrest' (by omega) (by omega) hl.2 hro.2
+    simp only [evalArgs, bind_apply]
+    cases he : denote e with
+    | error y =>
+      rw [he] at h1
+      obtain ⟨k, s, e', hk⟩ := h1
+      obtain ⟨z, hz⟩ := denoteList_cons_errL (es := es) he
+      rw [hk, hz]
+      exact ⟨k, s, e', rfl⟩
+    | ok v =>
+      rw [he] at h1
+      simp only [Outcome] at h1
+      rw [h1]
+      cases hes : denoteList es with
+      | error y =>
+        rw [hes] at h2
+        obtain ⟨k, s, e', hk⟩ := h2
+        obtain ⟨z, hz⟩ := denoteList_cons_errR (e := e) hes
+        simp only [hk, hz]
+        exact ⟨k, s, e', rfl⟩
+      | ok vs =>
+        rw [hes] at h2
+        simp only [ArgsOutcome] at h2
+        simp only [h2, denoteList_cons_ok he hes, ArgsOutcome, List.map_cons]
+        rfl
+
 /-! ### The evaluator -/
 
 theorem force_node (cfg : Cfg) (F : Nat) (a : At) :
@@ -359,6 +504,52 @@ theorem evalOK_all (cfg : Cfg) : ∀ f, EvalOK cfg f := by
                 simp only [FoldOutcome] at hf
                 simp only [hf, Outcome]
                 rfl
-    | _ => sorry
+    | @call0 id ks nm f hop =>
+      have hL := at_opKids ⟨off, .node id .FN_CALL ks⟩
+      simp only [kids_node, hop] at hL
+      obtain ⟨nma, hLeq, _⟩ := map_eq_one hL
+      have hden : denote (.call f []) = .error .arity := by
+        cases f <;> simp [denote, denoteList, applyFn]
+      rw [hden]
+      simp only [eval, kind_node, hLeq]
+      split
+      · exact ⟨_, _, _, rfl⟩
+      · exact ⟨_, _, _, rfl⟩
+    | @call id aid ks aks nm f x xs args more hop hnk hnt hak hargs =>
+      have hL := at_opKids ⟨off, .node id .FN_CALL ks⟩
+      simp only [kids_node, hop] at hL
+      obtain ⟨nma, L1, hLeq, hnma, hL1⟩ := map_eq_cons hL
+      obtain ⟨arga, morea, rfl, harga, _⟩ := map_eq_cons hL1
+      have hs1 := opKids_size_le ks
+      have hs2 := opKids_size_le aks
+      simp only [hop, hak, sizeList, size_node] at hs1 hs2 hsz
+      have p0 := size_pos nm
+      have hA := at_opKids arga
+      rw [harga] at hA
+      simp only [kids_node, hak] at hA
+      simp only [LitsOK, RoundOK] at hl hro
+      have hao := args_ok cfg F ih' hargs _ F d hA (by omega) (by simp only [sizeList]; omega)
+        hl hro.1
+      have hk1 : (nma.t.kind != Syntax.FN_NAME) = false := by rw [hnma, hnk]; rfl
+      have hk2 : (arga.t.kind != Syntax.FN_ARGUMENTS) = false := by rw [harga]; rfl
+      simp only [eval, kind_node, hLeq, hk1, hk2, Bool.false_eq_true, ↓reduceIte, bind_apply]
+      simp only [denote]
+      cases hdl : denoteList args with
+      | error y =>
+        rw [hdl] at hao
+        obtain ⟨k, s, e', hk⟩ := hao
+        simp only [hk]
+        exact ⟨k, s, e', rfl⟩
+      | ok vs =>
+        rw [hdl] at hao
+        simp only [ArgsOutcome] at hao
+        simp only [hao]
+        have hco := call_outcome cfg f off (At.stop ⟨off, .node id .FN_CALL ks⟩) vs d (by
+          intro hf x' n hvs
+          subst hvs
+          obtain ⟨a, b, hab, hbn⟩ := denoteList_ok_two hdl
+          exact hro.2 hf a b hab n hbn)
+        rw [hnma, hnt]
+        cases f <;> simpa [Fn.name, callEval] using hco
 
 end Anything.C06
